@@ -418,6 +418,37 @@ fn main() {
         }
         hostile.push(v);
     }
+    // registered UUID types with numbers on both sides of the signed-key boundary together with
+    // ordinal items, all of different sizes, in every wire order of the item bodies (the writer
+    // sorts keys as unsigned numbers, the map behind a snapshot sorts them as signed ones)
+    {
+        let ub = libtw2_snapshot::format::uuid_to_item_data(Uuid::from_bytes([0x22; 16]));
+        let key = |t: u32, id: u32| ((t << 16) | id) as i32;
+        for (hi, lo) in [(0x8001u32, 0x7fffu32), (0xffff, 0x4000), (0x8000, 0x8001)] {
+            let items: Vec<Vec<i32>> = vec![
+                vec![key(0, hi), ua[0], ua[1], ua[2], ua[3]],
+                vec![key(0, lo), ub[0], ub[1], ub[2], ub[3]],
+                vec![key(5, 1), 7],
+                vec![key(hi, 1), 1, 2, 3],
+                vec![key(lo, 2), 9, 8],
+                vec![key(1, 0), 4, 5],
+            ];
+            let orders: [[usize; 6]; 4] = [[0, 1, 2, 3, 4, 5], [5, 4, 3, 2, 1, 0], [3, 0, 4, 1, 2, 5], [2, 5, 0, 1, 4, 3]];
+            for order in orders {
+                let total: usize = items.iter().map(|i| i.len()).sum();
+                let mut v = vec![(total * 4) as i32, items.len() as i32];
+                let mut off = 0;
+                for &k in &order {
+                    v.push((off * 4) as i32);
+                    off += items[k].len();
+                }
+                for &k in &order {
+                    v.extend_from_slice(&items[k]);
+                }
+                hostile.push(v);
+            }
+        }
+    }
     go("hostile-structures", hostile);
     // (d) every accepted delta applied to every accepted snapshot; Delta::create between all pairs
     let snaps: Vec<Vec<i32>> = pool.lock().unwrap().keys().cloned().collect();
@@ -497,7 +528,7 @@ fn main() {
     run.merge_classes(lc);
     run.assume("allocation bound checked: peak additional live bytes <= 64 x input bytes + 64 KiB per parser call (counting global allocator, thread-local)");
     run.finish(
-        &format!("int sequences of length <= {} over 15 boundary values (as snapshot and as delta, int and byte form); every truncation, single (and neighbouring double) field corruption with 18 boundary values and +-1/+-4 of valid snapshots and deltas; hand-made hostile structures (duplicate keys, bad registry items, oversized counts, 1023/1024/1025 items, 64 KiB +- words, UUID registry chains to the top of the type range); every accepted delta applied to every accepted snapshot of a pool; Delta::create between all pool pairs; accepted => limits, write/read equality, follow-up operations incl. recycle", maxlen),
+        &format!("int sequences of length <= {} over 15 boundary values (as snapshot and as delta, int and byte form); every truncation, single (and neighbouring double) field corruption with 18 boundary values and +-1/+-4 of valid snapshots and deltas; hand-made hostile structures (duplicate keys, bad registry items, oversized counts, 1023/1024/1025 items, 64 KiB +- words, UUID registry chains to the top of the type range, registered types on both sides of 0x8000 mixed with ordinal items of different sizes in several wire orders); every accepted delta applied to every accepted snapshot of a pool; Delta::create between all pool pairs; accepted => limits, write/read equality, follow-up operations incl. recycle", maxlen),
         true,
     );
 }
